@@ -419,6 +419,15 @@ type CtxCase struct {
 var ctxGlobals = []string{"nil", "empty non-nil map", `{"team": ["infra"], "shared": ["g"]}`}
 var ownTagForms = [][]string{nil, {"+own"}, {"+shared=d", "+own=1", "+own=2"}}
 
+// ctxDocLines: the doc text of a declaration of the Context.Doc case, without the leading name. Two of the five
+// declarations have runs of blanks and a tab inside the name-led line and a second line with runs of blanks.
+func ctxDocLines(name string) []string {
+	if name == "Beta" || name == "Epsilon" {
+		return []string{"does  two things.  Then\ta tab.", "a second   line with runs of blanks"}
+	}
+	return []string{"does things."}
+}
+
 func checkContextDoc(c *core.Ctx, cc CtxCase) {
 	cs := Case{Ctx: &cc}
 	c.Eval(1)
@@ -440,7 +449,12 @@ func checkContextDoc(c *core.Ctx, cc CtxCase) {
 		}
 		b.WriteString("package " + pkg + "\n\n")
 		for _, n := range ts {
-			b.WriteString("// " + n + " does things.\n")
+			for li, l := range ctxDocLines(n) {
+				if li == 0 {
+					l = n + " " + l // (only the first line starts with the name)
+				}
+				b.WriteString("// " + l + "\n")
+			}
 			for _, l := range own[pkg+"."+n] {
 				b.WriteString("// " + l + "\n")
 			}
@@ -486,7 +500,7 @@ func checkContextDoc(c *core.Ctx, cc CtxCase) {
 				ks = append(ks, fmt.Sprintf("%s=%q", k, v))
 			}
 			sort.Strings(ks)
-			line := fmt.Sprintf("// DOC-OF-SELF %s/%s.%s tags {%s} doc %q", mod, pkg, n, strings.Join(ks, " "), []string{"does things."})
+			line := fmt.Sprintf("// DOC-OF-SELF %s/%s.%s tags {%s} doc %q", mod, pkg, n, strings.Join(ks, " "), ctxDocLines(n))
 			if !strings.Contains(string(src), line+"\n") {
 				got := ""
 				for _, l := range strings.Split(string(src), "\n") {
